@@ -1,8 +1,12 @@
 import Abyss.Props.C02
 import Abyss.Props.C03
+#print axioms Abyss.C02_reopen
 #print axioms Abyss.parse_render
 #print axioms Abyss.parseRecFile_key
 #print axioms Abyss.parseRecFile_val
 #print axioms Abyss.parseHtx_render
+#print axioms Abyss.renderable_of_sized
+#print axioms Abyss.run_sized
+#print axioms Abyss.inv_of_same
 #print axioms Abyss.run_refines
 #print axioms Abyss.Buf.C03_durable
